@@ -146,11 +146,15 @@ theorem decode_encode (l : Str) : decodeUtf8 (encodeUtf8 l) = some l := by
 
 def lineBytes (l : Str) : List UInt8 := (encodeUtf8 l).data.toList
 
+/-- what the splitting loop emits when it meets byte 10 with `acc` (reversed) collected: one byte 13 in
+    front of the 10 belongs to the terminator -/
+def fin13 (acc : List UInt8) : List UInt8 := if acc.head? == some 13 then acc.tail.reverse else acc.reverse
+
 /-- the splitting loop on a piece without byte 10 followed by byte 10 -/
 theorem go_piece (x rest acc : List UInt8) (hx : (10 : UInt8) ∉ x) :
-    byteLines.go (x ++ 10 :: rest) acc = (acc.reverse ++ x) :: byteLines.go rest [] := by
+    byteLines.go (x ++ 10 :: rest) acc = fin13 (x.reverse ++ acc) :: byteLines.go rest [] := by
   induction x generalizing acc with
-  | nil => simp [byteLines.go]
+  | nil => simp [byteLines.go, fin13]
   | cons b bs ih =>
     have hb : b ≠ 10 := fun e => hx (by simp [e])
     have hbs : (10 : UInt8) ∉ bs := fun hm => hx (List.mem_cons_of_mem _ hm)
@@ -159,20 +163,20 @@ theorem go_piece (x rest acc : List UInt8) (hx : (10 : UInt8) ∉ x) :
     · rw [ih (b :: acc) hbs]; simp
     · exact hb
 
-def strip13 (l : List UInt8) : List UInt8 := if l.getLast? == some 13 then l.dropLast else l
-
-theorem strip13_clean (x : List UInt8) (h : (13 : UInt8) ∉ x) : strip13 x = x := by
-  unfold strip13
-  cases hl : x.getLast? with
+theorem fin13_clean (x : List UInt8) (h : (13 : UInt8) ∉ x) : fin13 (x.reverse ++ []) = x := by
+  unfold fin13
+  simp only [List.append_nil]
+  cases hl : x.reverse.head? with
   | none => simp
   | some b =>
-    have hb : b ∈ x := List.mem_of_getLast? hl
+    have hb : b ∈ x := by
+      have := List.mem_of_mem_head? hl
+      simpa using this
     have : b ≠ 13 := fun e => h (e ▸ hb)
     simp [this]
 
-theorem strip13_cr (x : List UInt8) : strip13 (x ++ [13]) = x := by
-  unfold strip13; simp
-
+theorem fin13_cr (x : List UInt8) : fin13 ((x ++ [13]).reverse ++ []) = x := by
+  unfold fin13; simp
 
 /-- a source made of the lines `lines`, each terminated by the same line ending -/
 def srcBytes (crlf : Bool) (lines : List Str) : List UInt8 :=
@@ -188,7 +192,7 @@ theorem lineBytes_le (crlf : Bool) : lineBytes (leOf crlf) = if crlf then [13, 1
   cases crlf <;> rfl
 
 theorem go_src (crlf : Bool) (lines : List Str) (hc : ∀ l ∈ lines, Clean l) :
-    byteLines.go (srcBytes crlf lines) [] = lines.map (fun l => lineBytes l ++ (if crlf then [13] else [])) := by
+    byteLines.go (srcBytes crlf lines) [] = lines.map lineBytes := by
   induction lines with
   | nil => simp [srcBytes, byteLines.go]
   | cons l ls ih =>
@@ -201,7 +205,13 @@ theorem go_src (crlf : Bool) (lines : List Str) (hc : ∀ l ∈ lines, Clean l) 
     have hsplit : srcBytes crlf (l :: ls) = (lineBytes l ++ (if crlf then [13] else [])) ++ 10 :: srcBytes crlf ls := by
       cases crlf <;> simp [srcBytes]
     rw [hsplit, go_piece _ _ [] hx, ih (fun l' h' => hc l' (List.mem_cons_of_mem _ h'))]
-    simp
+    simp only [List.map_cons, List.cons.injEq, and_true]
+    cases crlf with
+    | true => simp only [if_true]; exact fin13_cr _
+    | false =>
+      simp only [Bool.false_eq_true, if_false, List.append_nil]
+      have := fin13_clean (lineBytes l) hcl.2
+      simpa using this
 
 theorem byteLines_src (crlf : Bool) (lines : List Str) (hc : ∀ l ∈ lines, Clean l) :
     byteLines (srcBytes crlf lines) = lines.map lineBytes := by
@@ -209,17 +219,11 @@ theorem byteLines_src (crlf : Bool) (lines : List Str) (hc : ∀ l ∈ lines, Cl
   | nil => rfl
   | cons l ls =>
     have hne : srcBytes crlf (l :: ls) ≠ [] := by cases crlf <;> simp [srcBytes]
-    have hb : byteLines (srcBytes crlf (l :: ls)) = (byteLines.go (srcBytes crlf (l :: ls)) []).map strip13 := by
+    have hb : byteLines (srcBytes crlf (l :: ls)) = byteLines.go (srcBytes crlf (l :: ls)) [] := by
       cases hs : srcBytes crlf (l :: ls) with
       | nil => exact absurd hs hne
       | cons b bs => rfl
-    rw [hb, go_src crlf (l :: ls) hc, List.map_map]
-    apply List.map_congr_left
-    intro l' hl'
-    have hcl := encode_clean l' (hc l' hl')
-    cases crlf with
-    | true => simp only [Function.comp, if_true]; exact strip13_cr _
-    | false => simp only [Function.comp, Bool.false_eq_true, if_false, List.append_nil]; exact strip13_clean _ hcl.2
+    rw [hb, go_src crlf (l :: ls) hc]
 
 theorem decodeLines_src (lines : List Str) : decodeLines (lines.map lineBytes) = (lines, true) := by
   induction lines with
